@@ -261,6 +261,12 @@ def stepMurmur (j : Json) : String :=
   let n1 := H.next f
   s!"hk={hk.toNat} first={f.toNat} n1={n1.toNat} n2={(H.next n1).toNat}"
 
+def stepCallback (j : Json) : String :=
+  let e : Callback.GoErr := match jStr j "err" with
+    | "oauth2" => .oauth2 "invalid_request"
+    | k => .raw k       -- a plain error, a wrapped OAuth2Error and a *OAuth2Error are all "not an oauth.OAuth2Error value"
+  cls (Callback.withCallbackURI Sites.callbackCfg e) (fun r => match r with | .oauth2 _ => ":oauth2" | .raw _ => ":other")
+
 def step (st : Unit) (j : Json) : Unit × List String :=
   match jStr j "op" with
   | "dpop" => (st, [stepDpop j])
@@ -274,6 +280,7 @@ def step (st : Unit) (j : Json) : Unit × List String :=
   | "iblt.insert" => (st, [stepInsert j])
   | "iblt.raw" => (st, stepRaw j)
   | "murmur" => (st, [stepMurmur j])
+  | "callback" => (st, [stepCallback j])
   | o => (st, ["bad-op:" ++ o])
 
 end Nuts.Drv.C19
